@@ -28,6 +28,10 @@ CHECKS = {
         text='Site assignment is specified on an exact integer lattice (metric tensor only, so orientation-free); TLC checks uniqueness / inner-in-outer / translation lemmas exhaustively on a small grid and judges the .states/.inner_states recorded from the real code for 6 cell families x 3 orientations x 4 radius modes with exact minimum-image distances.',
         note='Trusted: TLC integer arithmetic, exact-lattice abstraction (atoms and sites on a /64 grid; radii with r^2 N^2 away from integers). Generic non-grid floats are only reached through random rotations of the cell.',
         ref='DESIGN.md 8/C02', technique='TLA+ spec Sites.tla!AssignAtom + Lattice.tla; TLC model checking (MC_Assign) + trace validation (TraceAssign.tla) as exact oracle'),
+    'C06': dict(
+        text='MSD, distance from the start and tracer diffusivity are TLA+ operators over the integer unwrapped walk and the integer metric tensor; TLC checks lemmas on the model and, as an oracle, prints the exact numerators for harness-generated walks that cross faces many times in 6 cell families x 3 orientations; the floats of the real code must equal these rationals.',
+        note='Trusted: TLC integer arithmetic; exact-lattice abstraction (/16 grid, |step| < half cell); FFT round-off bounds the comparison at relative 1e-8; scipy constants.',
+        ref='DESIGN.md 8/C06', technique='TLA+ spec Metrics.tla; TLC model checking (MC_Metrics) + TLC as exact oracle on recorded inputs (TraceMetrics.tla)'),
     'C12': dict(
         text='The sorted scan of collective.py is transcribed into TLA+ and TLC proves it equal to the declarative pair definition on every bounded jump table (negative control: the early exit originally coded is refuted); TLC-exported tables are replayed through Collective and random tables in real cells are judged by the trace spec with exact site distances.',
         note='Trusted: TLC; tables injected through the public Jumps(conversion_method=...) parameter; cut-offs kept 1e-4 away from site distances.',
@@ -36,6 +40,10 @@ CHECKS = {
         text='Drift correction is an action of the Trajectory object-store spec; TLC checks on the model that the reference does not move and the first frame is kept along every call sequence, and judges recorded drift()/apply_drift_correction() calls of the real code (fixed/floating/none, str/list/set, Species/Element, raw/derived/already-corrected objects) against the exact corrected walk.',
         note='Trusted: TLC; steps below a quarter cell; means kept on the /192 grid (<= 4 reference atoms).',
         ref='DESIGN.md 8/C13', technique='TLA+ spec Trajectory.tla (CorrectedStepsTimesL, DriftClauses); TLC model checking + trace validation (TraceTraj.tla)'),
+    'C14': dict(
+        text='Exact rational cores of the derived metrics (density, conductivity, centre-of-mass diffusivity, Haven ratio, per-part values, amplitude segmentation) are TLA+ operators; TLC proves partition / sum / scaling / Haven=1 lemmas on every bounded speed series and serves as oracle for recorded inputs; scaling laws are metamorphic pairs judged against the exponent table.',
+        note='Trusted: TLC; alpha removes CODATA constants (scipy) and atomic masses (pymatgen). Values of attempt frequency and 3-D vibration amplitude are not specified (periodogram / irrational sums): only exponents, partition and the exact 1-D amplitude list.',
+        ref='DESIGN.md 8/C14', technique='TLA+ spec Metrics.tla (Segments/Amplitudes transcription, ComNum, Det3); TLC model checking (MC_Metrics) + TLC as exact oracle (TraceMetrics.tla) + metamorphic scaling pairs'),
     'C15': dict(
         text='gemdat.Trajectory is specified as an object store whose objects hold one coords array switched in place between positions and displacements; TLC explores every call sequence up to a bound (AbsStable: every live object keeps denoting its ghost), every model behaviour is replayed on the real class, and long random call sequences are validated event by event with the projection of every live object.',
         note='Trusted: TLC; projection of objects from public attributes (coords, coords_are_displacement, base_positions); constant-cell trajectories only.',
